@@ -437,7 +437,7 @@ type ordJust struct {
 }
 
 var justifiedORD = map[string]ordJust{
-	"analysis.fetchEnumsAndUnions|p.Imports": {
+	"analysis.fetchEnumsAndUnions|$*packages.Package.Imports": {
 		why: "the walk merges, per visited package, tables whose keys are named types declared in that very package (fetchPkgEnums keeps only constants of locally declared types; fetchPkgUnions keys are the package's own type names): distinct packages write disjoint keys and a package always writes the same values, so neither the order nor the number of visits matters",
 		side: func(c *ordCtx, rs *ast.RangeStmt) (bool, string) {
 			// (1) the loop body only skips ignored packages and recurses
@@ -584,7 +584,7 @@ var justifiedORD = map[string]ordJust{
 			return true, ""
 		},
 	},
-	"analysis.(*Struct).setImplements|unions": {
+	"analysis.(*Struct).setImplements|$analysis.unionsMap": {
 		why: "the collected unions are sorted afterwards by the qualified name of the union type, which is injective on distinct named types",
 		side: func(c *ordCtx, rs *ast.RangeStmt) (bool, string) {
 			ok := false
@@ -614,10 +614,10 @@ var justifiedORD = map[string]ordJust{
 			return true, ""
 		},
 	},
-	"analysis.(PkgSelector).findPackage|pa.Imports": {why: "depth-first search for the package with a given import path: at most one package of the import graph has that path, so the result does not depend on the visiting order", side: searchSideUniquePkg},
-	"analysis/httpapi.selectFileByPos|pa.Imports":   {why: "search for the file containing a position: file position ranges are disjoint, at most one file matches", side: searchSide},
-	"analysis/httpapi.selectPackage|pa.Imports":     {why: "search for the package with a given path: unique in the import graph", side: searchSideUniquePkg},
-	"generator/dart.Generate|buf.files": {
+	"analysis.(PkgSelector).findPackage|$*packages.Package.Imports": {why: "depth-first search for the package with a given import path: at most one package of the import graph has that path, so the result does not depend on the visiting order", side: searchSideUniquePkg},
+	"analysis/httpapi.selectFileByPos|$*packages.Package.Imports":   {why: "search for the file containing a position: file position ranges are disjoint, at most one file matches", side: searchSide},
+	"analysis/httpapi.selectPackage|$*packages.Package.Imports":     {why: "search for the package with a given path: unique in the import graph", side: searchSideUniquePkg},
+	"generator/dart.Generate|$dart.buffer.files": {
 		why: "the result is a set of output files keyed by file name; each element's content depends only on its own map entry, and both consumers write each element to its own path",
 		side: func(c *ordCtx, rs *ast.RangeStmt) (bool, string) {
 			// the only outer effect of the body is the append of one Output per entry
@@ -765,7 +765,7 @@ func runORD1(w *World, r *Result, only func(rel string) bool) int {
 					n++
 					cons := "range " + es(rs.X)
 					pos := w.Pos(rs.Pos())
-					if j, ok := justifiedORD[c.fn+"|"+es(rs.X)]; ok {
+					if j, ok := justifiedORD[c.fn+"|"+normLocals(c.info, rs.X)]; ok {
 						if good, why := j.side(c, rs); good {
 							r.justified("ORD-1", c.fn, cons, pos, j.why+" [side condition re-checked on this run]")
 						} else {
